@@ -1,4 +1,5 @@
 import PqModel.DeltaConfBytes
+import PqModel.DeltaAmd64
 
 /-! # C04 (part DELTA, conformance) — every spec-conformant DELTA stream is read back, by the format's
 decoder and by the Go decoders.
@@ -112,6 +113,23 @@ theorem conformant_dba_go (sp ss : ConfStream 32) (ps : List Nat) (vs : List (Li
     (hb1 : sp.blockSize ≤ 65536) (ht1 : sp.total < 2 ^ 31) (hb2 : ss.blockSize ≤ 65536) (ht2 : ss.total < 2 ^ 31) :
     goDecodeDBA (sp.bytes ++ (ss.bytes ++ ((cutSuffixes ps vs).flatten ++ tail))) = .ok vs :=
   goDecodeDBA_conf sp ss ps vs tail hsp hss hpv hp hsv h31 hb1 ht1 hb2 ht2
+
+/-- DELTA_BYTE_ARRAY as the default (assembly) build decodes it: the mirror of `DecodeByteArray` with
+the amd64 Go wrapper (PqModel/DeltaAmd64.lean; AVX2 kernels by contract) returns the values of
+every conformant stream that ends with its suffix bytes, as the values section of a data page does. -/
+theorem conformant_dba_go_amd64 (sp ss : ConfStream 32) (ps : List Nat) (vs : List (List Nat))
+    (hsp : sp.OK) (hss : ss.OK) (hpv : sp.values = ps.map (BitVec.ofNat 32))
+    (hp : prefixesOK [] ps vs) (hsv : ss.values = lensOf (cutSuffixes ps vs))
+    (h31 : ∀ v ∈ vs, v.length < 2 ^ 31)
+    (hb1 : sp.blockSize ≤ 65536) (ht1 : sp.total < 2 ^ 31) (hb2 : ss.blockSize ≤ 65536) (ht2 : ss.total < 2 ^ 31) :
+    goDecodeDBAamd64 (sp.bytes ++ (ss.bytes ++ (cutSuffixes ps vs).flatten)) = .ok vs := by
+  have h := goDecodeDBA_conf sp ss ps vs [] hsp hss hpv hp hsv h31 hb1 ht1 hb2 ht2
+  simp only [List.append_nil] at h
+  have h1 := goDecode_conf (Or.inl rfl) sp (ss.bytes ++ (cutSuffixes ps vs).flatten) hsp hb1 ht1
+  have h2 := goDecode_conf (Or.inl rfl) ss ((cutSuffixes ps vs).flatten) hss hb2 ht2
+  obtain ⟨_, hsn⟩ := natLens_ok (natLens_lensOf (cutSuffixes ps vs) (cutSuffixes_lt vs ps h31))
+  refine goDecodeDBAamd64_eq _ _ _ _ _ vs h1 h2 h ?_
+  rw [hsv, ← hsn, List.length_flatten]
 
 /-- prefixes 0, 1 (the longest shared prefix of the second value would be 2) for `ab cd`, `ab cd ef` -/
 example : prefixesOK [] [0, 1] [[0xab, 0xcd], [0xab, 0xcd, 0xef]] ∧
